@@ -169,6 +169,23 @@ theorem lawful_versionBody : Lawful versionBody :=
     (lawful_pair lawful_netAddr (lawful_pair lawful_netAddr (lawful_pair (lawful_uintLE 8)
       (lawful_pair lawful_varBytes (lawful_intLE 4)))))))) _ _ (fun _ _ => rfl)
 
+theorem lawful_sendCmpct : Lawful sendCmpct := lawful_pair (lawful_refine (lawful_uintLE 1) _ _) (lawful_uintLE 8)
+theorem lawful_filterRange : Lawful filterRange :=
+  lawful_pair (lawful_uintLE 1) (lawful_pair (lawful_uintLE 4) (lawful_revBytesN 32))
+theorem lawful_cfilter : Lawful cfilter := lawful_pair (lawful_uintLE 1) (lawful_pair (lawful_revBytesN 32) lawful_varBytes)
+theorem lawful_cfheaders : Lawful cfheaders :=
+  lawful_pair (lawful_uintLE 1) (lawful_pair (lawful_revBytesN 32) (lawful_pair (lawful_revBytesN 32)
+    (lawful_listUpTo _ (lawful_revBytesN 32))))
+theorem lawful_getcfcheckpt : Lawful getcfcheckpt := lawful_pair (lawful_uintLE 1) (lawful_revBytesN 32)
+theorem lawful_cfcheckpt : Lawful cfcheckpt :=
+  lawful_pair (lawful_uintLE 1) (lawful_pair (lawful_revBytesN 32) (lawful_listOf _ (lawful_revBytesN 32)))
+
+theorem sendCmpct_valid (t : Nat × Nat) : sendCmpct.valid t ↔ t.1 ≤ 1 ∧ t.2 < 2 ^ 64 := by
+  simp only [sendCmpct, pair, Codec.refine, uintLE_valid, decide_eq_true_eq]
+  constructor
+  · rintro ⟨⟨_, a⟩, b⟩; exact ⟨a, by omega⟩
+  · rintro ⟨a, b⟩; exact ⟨⟨by omega, a⟩, by omega⟩
+
 theorem netAddr_valid (a : NetAddr) :
     netAddr.valid a ↔ a.services < 2 ^ 64 ∧ a.ip.length = 16 ∧ a.port < 2 ^ 16 := by
   simp only [netAddr, Codec.map, pair, uintLE_valid, uintBE_valid, bytesN]
